@@ -48,7 +48,7 @@ def gen_case(rng):
     plan = {"amp": {c: rng.choice([2, 4]) for c in chans}, "off": {c: rng.choice([0, 0.25]) for c in chans},
             "delay": dl,
             "filt": {c: rng.choice([None, None, ("HP", 1, SR * 0.1, None), ("LP", 2, None, 1 / (SR * 0.5))]) for c in chans}}
-    prog = []
+    prog = [("HNumpyInts",)] if rng.random() < 0.3 else []      # sequencing values as numpy integer scalars
     regs_s = []
     lens = []
     for k in range(3):
